@@ -406,3 +406,24 @@ package ss2022
 //@   callsite Add: plaintext[0] == 0 && tsValid(int64(be64(plaintext[1:])), arg1) && arg2 == extendedSalt
 //@   callsite Add: arg1 == clocknow()
 //@   callsite ParseTCPRequestVariableLengthHeader: has(s.saltPool.nodeBySalt, extendedSalt)
+
+// ---------------------------------------------------------------------------
+// UDP session server (properties C08, C11): session lookup key and per-session unpacker.
+// ---------------------------------------------------------------------------
+
+//@ func (*UDPServer).SessionInfo
+//@   requires !isnil(s) && !isnil(s.block)
+//@   modifies b[0:16]
+//@   ensures isnil(err) ==> len(b) >= 16 && csid == be64(b)
+//@   ensures len(b) >= 16 ==> isnil(err)
+
+// A new session's unpacker is a fresh object built for the user whose key hash the identity header carries:
+// the session is refused when that hash is not in the server's current user set.
+//@ func (*UDPServer).NewUnpacker
+//@   requires !isnil(s) && !isnil(s.block) && (s.identityHeaderLen == 0 || s.identityHeaderLen == 16) && s.filterSize >= 1 && s.filterSize <= 1 << 32
+//@   modifies b[0:len(b)]
+//@   ensures isnil(result2) ==> dyntype(result0, *ShadowPacketServerUnpacker) && fresh(unbox(result0, *ShadowPacketServerUnpacker))
+//@   ensures isnil(result2) ==> unbox(result0, *ShadowPacketServerUnpacker).nonAEADHeaderLen == 16 + s.identityHeaderLen && isnil(unbox(result0, *ShadowPacketServerUnpacker).filter) && unbox(result0, *ShadowPacketServerUnpacker).filterSize == s.filterSize && unbox(result0, *ShadowPacketServerUnpacker).csid == csid
+//@   ensures isnil(result2) && s.identityHeaderLen != 0 ==> (exists h [16]byte :: has(s.CredStore.ulm, h) && s.CredStore.ulm[h].Name == result1)
+//@   ensures isnil(result2) && s.identityHeaderLen == 0 ==> result1 == ""
+//@   ensures !isnil(result2) ==> isnil(result0)
